@@ -109,4 +109,30 @@ def readerSession (f : List String) : IO String := do
     pure s!"{" ".intercalate res.toList} ; consumed={r.src.pos}"
   | _ => pure "bad-op"
 
+/-- `HD flg bd sz mode`: the header-acceptance table of C19 as the model predicts it -/
+def hdSession (f : List String) : String :=
+  match f with
+  | [flgS, bdS, szS, mode] =>
+    let flg := flgS.toNat!; let bd := bdS.toNat!
+    let hasSize := flg / 8 % 2 = 1
+    let sz := if szS == "-" then 0 else szS.toNat!
+    let desc : Array UInt8 := #[flg.toUInt8, bd.toUInt8] ++ (if hasSize then FrameW.le64 sz else #[])
+    let hdr := FrameW.le32 Gen.frameMagic ++ desc
+    let right := (XXH.checksumZero desc.toList).toNat / 256 % 256
+    let cks : List Nat := if mode == "t" then List.range 256
+      else [right, Nat.xor right 1, Nat.xor right 128, (right + 1) % 256]
+    let tail : Array UInt8 := #[0, 0, 0, 0] ++ (if flg / 4 % 2 = 1 then #[0x05, 0x5d, 0xcc, 0x02] else #[])
+    let (acc, wrong, size) := cks.foldl (fun (acc, wrong, size) c =>
+      let h := hdr.push c.toUInt8
+      let (_, e) := FrameR.parseHeaders (FrameR.new { data := h }) (h.size + 2)
+      match e with
+      | none =>
+        let (r, _, _) := FrameR.read (FrameR.new { data := h ++ tail }) 16
+        (acc ++ s!"{c},", wrong, s!"{FrameR.size r}")
+      | some e => (acc, if wrong.contains e.name then wrong else wrong ++ [e.name], size)) ("", [], "-")
+    let order := ["ok", "badhdrck", "badblksize", "badmagic", "unexpEOF", "eof"]
+    let ws := (order.filter wrong.contains).foldl (fun s k => s ++ k ++ ",") ""
+    s!"acc={acc} wrong={ws} size={size}"
+  | _ => "bad-op"
+
 end Lz4V.Session
